@@ -120,3 +120,72 @@ def oracle_vonmises(R, tier, seed):
                 else:
                     O1["ok"] += 1
                 R.mark("c15vm", kind, ny, rep)
+
+
+def _wingbox_closed_form(nodes, disp, E, G, tssf, w):
+    """von Mises stresses at the four stress points of every wing-box element, written from beam theory: axial strain,
+    Hermite-cubic curvature at the element's second node, Bredt torsion shear, VQ/(2 I t) transverse shear expressed
+    through the third derivative of the Hermite cubic; the upper-skin points (0, 3) are measured against an allowable
+    scaled by tssf, i.e. the whole von Mises value is divided by it."""
+    ne = nodes.shape[0] - 1
+    out = np.zeros((ne, 4))
+    for e in range(ne):
+        P0, P1 = nodes[e], nodes[e + 1]
+        L = np.linalg.norm(P1 - P0); x = (P1 - P0) / L
+        y = np.cross(x, [1.0, 0, 0]); y /= np.linalg.norm(y); z = np.cross(x, y); z /= np.linalg.norm(z)
+        u0, u1, r0, r1 = disp[e, :3], disp[e + 1, :3], disp[e, 3:], disp[e + 1, 3:]
+        axial = E * (u1 @ x - u0 @ x) / L
+        tau_t = G * w["J"][e] * (r1 @ x - r0 @ x) / L / (2 * w["spar_thickness"][e] * w["A_enc"][e])
+        # curvature at xi = 1 of the Hermite cubic through (v0, th0, v1, th1): (6 v0 + 2 th0 L - 6 v1 + 4 th1 L) / L^2
+        kz = (6 * (u0 @ y) + 2 * (r0 @ z) * L - 6 * (u1 @ y) + 4 * (r1 @ z) * L) / L ** 2        # bending in the local x-y plane
+        ky = (-6 * (u0 @ z) + 2 * (r0 @ y) * L + 6 * (u1 @ z) + 4 * (r1 @ y) * L) / L ** 2       # bending in the local x-z plane
+        top, bottom = E * kz * w["htop"][e], -E * kz * w["hbottom"][e]
+        front, rear = -E * ky * w["hfront"][e], E * ky * w["hrear"][e]
+        v3 = (-12 * (u0 @ y) - 6 * (r0 @ z) * L + 12 * (u1 @ y) - 6 * (r1 @ z) * L) / L ** 3     # third derivative (constant)
+        tau_v = E * v3 * w["Qz"][e] / (2 * w["spar_thickness"][e])
+        out[e, 0] = np.sqrt((top + rear + axial) ** 2 + 3 * tau_t ** 2) / tssf
+        out[e, 1] = np.sqrt((bottom + front + axial) ** 2 + 3 * tau_t ** 2)
+        out[e, 2] = np.sqrt((front + axial) ** 2 + 3 * (tau_t - tau_v) ** 2)
+        out[e, 3] = np.sqrt((rear + axial) ** 2 + 3 * (tau_t + tau_v) ** 2) / tssf
+    return out
+
+
+def oracle_wingbox_closed_form(R, tier, seed):
+    """VonMisesWingbox and FailureExact against the closed form above, for upper-skin strength factors other than 1,
+    swept / dihedral / right-hand / full-span beams, general displacement fields and the pure load cases"""
+    from openaerostruct.structures.vonmises_wingbox import VonMisesWingbox
+    from openaerostruct.structures.failure_exact import FailureExact
+    O = R.oracle("VonMisesWingbox.closed-form")
+    rng = gen.stable_rng(seed, "c15_wbcf")
+    for kind in ("left", "right", "full"):
+        for ny in ((2, 4) if tier == "quick" else (2, 3, 4, 6)):
+            if kind == "full" and ny % 2 == 0: ny += 1
+            for tssf in (1.0, 0.8, 1.3):
+                mesh = gen.rand_mesh(rng, 2, ny, kind)
+                nodes = 0.6 * mesh[0] + 0.4 * mesh[-1]
+                wsurf = gen.wingbox_surface(mesh, symmetry=(kind != "full"), strength_factor_for_upper_skin=tssf, exact_failure_constraint=True)
+                w = {}
+                for k, lo, hi in (("Qz", 1e-4, 1e-2), ("J", 1e-4, 1e-2), ("A_enc", 0.05, 0.5), ("spar_thickness", 0.002, 0.02),
+                                  ("htop", 0.05, 0.3), ("hbottom", 0.05, 0.3), ("hfront", 0.1, 0.6), ("hrear", 0.1, 0.6)):
+                    w[k] = rng.uniform(lo, hi, ny - 1)
+                E, G, sig = wsurf["E"], wsurf["G"], wsurf["yield"]
+                x = (nodes[1] - nodes[0]) / np.linalg.norm(nodes[1] - nodes[0])
+                fields = {"general": rng.normal(size=(ny, 6)) * 1e-2}
+                d = np.zeros((ny, 6)); d[1:, 3:] = 2e-3 * x; fields["pure-torsion-of-element-0"] = d
+                d = np.zeros((ny, 6)); d[1:, :3] = 1e-3 * x; fields["pure-axial-of-element-0"] = d
+                for fname, disp in fields.items():
+                    o, _, _ = core.run_comp(VonMisesWingbox(surface=wsurf), dict(w, nodes=nodes, disp=disp), want_J=False)
+                    vm = o["vonmises"]
+                    ref = _wingbox_closed_form(nodes, disp, E, G, tssf, w)
+                    o2, _, _ = core.run_comp(FailureExact(surface=wsurf), {"vonmises": vm}, want_J=False)
+                    fail = o2["failure"]
+                    sc = max(np.abs(ref).max(), 1.0)
+                    bad = {}
+                    if np.abs(vm - ref).max() > 1e-9 * sc: bad["vonmises-vs-closed-form"] = float(np.abs(vm - ref).max() / sc)
+                    if np.abs(fail - (ref / sig - 1)).max() > 1e-9 * max(sc / sig, 1.0): bad["failure-vs-stress-over-allowable"] = float(np.abs(fail - (ref / sig - 1)).max())
+                    O["cases"] += 1
+                    if bad:
+                        _fail(O, "C15:VonMisesWingbox:%s" % sorted(bad)[0], {"kind": kind, "ny": ny, "strength_factor_for_upper_skin": tssf, "field": fname, "seed": seed},
+                              errors=bad, nodes=nodes.tolist(), disp=disp.tolist(), section=core.jsonable(w))
+                    else: O["ok"] += 1
+                R.mark("c15wbcf", kind, ny, tssf)
